@@ -41,10 +41,21 @@ func cellReadOf(v ssa.Value) (cellRead, bool) {
 		return nil, false
 	}
 	switch x := v.(type) {
+	case *ssa.Parameter:
+		/* The element handed to the body of "for _, e := range
+		slices.Values(tbl)" (or slices.All). */
+		if tbl, _, ok := rofElemOf(x); ok {
+			return cellRead{tbl, allRows, -1}, true
+		}
 	case *ssa.Index:
 		/* An element of an array value (a copy of the table). */
 		return cellRead{x.X, x.Index, -1}, true
 	case *ssa.Field:
+		if pa, ok := x.X.(*ssa.Parameter); ok {
+			if tbl, _, ok := rofElemOf(pa); ok {
+				return cellRead{tbl, allRows, x.Field}, true
+			}
+		}
 		if ix, ok := x.X.(*ssa.Index); ok {
 			return cellRead{ix.X, ix.Index, x.Field}, true
 		}
@@ -415,6 +426,9 @@ func writesThrough(ref ssa.Instruction, a ssa.Value) bool {
 // a phi starting at -1 (or 0), stepped by one, tested against n or against the
 // length of container.
 func rangesOverAll(idx ssa.Value, container ssa.Value, n int64) bool {
+	if idx == allRows {
+		return true
+	}
 	var ph *ssa.Phi
 	var add *ssa.BinOp
 	switch x := idx.(type) {
@@ -484,4 +498,43 @@ func rangesOverAll(idx ssa.Value, container ssa.Value, n int64) bool {
 		}
 	}
 	return false
+}
+
+// allRows stands for the index of a loop which the standard library's
+// slices.All / slices.Values drives over every element in order.
+var allRows ssa.Value = ssa.NewConst(nil, types.Typ[types.UntypedNil])
+
+// rofElemOf: pa is the element parameter of the body of a range-over-func
+// loop over slices.All(tbl) or slices.Values(tbl); returns tbl and the call
+// (in the enclosing function) which runs the loop.
+func rofElemOf(pa *ssa.Parameter) (ssa.Value, ssa.Instruction, bool) {
+	body := pa.Parent()
+	if nil == body || nil == body.Parent() || !strings.Contains(body.Synthetic, "range-over-func") {
+		return nil, nil, false
+	}
+	var tbl ssa.Value
+	var loop ssa.Instruction
+	eachInstr(body.Parent(), func(i ssa.Instruction) {
+		mc, ok := i.(*ssa.MakeClosure)
+		if !ok || mc.Fn != ssa.Value(body) {
+			return
+		}
+		for _, ref := range *mc.Referrers() {
+			c, isCall := ref.(*ssa.Call)
+			if !isCall || 1 != len(c.Common().Args) || c.Common().Args[0] != ssa.Value(mc) {
+				continue
+			}
+			seq, isSeq := c.Common().Value.(*ssa.Call)
+			if !isSeq || 1 != len(seq.Common().Args) {
+				continue
+			}
+			n := calleeName(seq.Common())
+			switch {
+			case strings.HasPrefix(n, "slices.All") && 2 == len(body.Params) && pa == body.Params[1],
+				strings.HasPrefix(n, "slices.Values") && 1 == len(body.Params) && pa == body.Params[0]:
+				tbl, loop = seq.Common().Args[0], c
+			}
+		}
+	})
+	return tbl, loop, nil != tbl
 }
